@@ -157,7 +157,11 @@ class ModSpec:
     unions: dict  # union name -> list of dataclass names (in order)
     fns: list  # FnSpec, in dependency order
     state: StateSpec | None = None
-    exc_ctor: dict = dataclasses.field(default_factory=dict)  # exception class -> handler(tr, node, lines) -> term of type ExcVal
+    exc_ctor: dict = dataclasses.field(default_factory=dict)  # exception class -> handler(fn, node, env, lines) -> term of type ExcVal
+    value_methods: dict = dataclasses.field(default_factory=dict)  # (type key, method) -> handler(fn, base, type, args, lines) -> (term, type)
+    enums: list = dataclasses.field(default_factory=list)  # plain Enum classes emitted as Lean inductives
+    postamble: str = ""
+    state_decl: str = ""  # Lean text: the state structure and its environment operations (after enums and unions)
     preamble: str = ""
 
 
@@ -228,6 +232,12 @@ class Tr:
         return f"{base}{self.tmp}"
 
     # ------------------------------------------------------------------ unions (dataclasses)
+    def emit_enums(self):
+        for name in self.spec.enums:
+            cls = getattr(self.mod, name)
+            lines = [f"/-- the enum `{name}` -/", f"inductive {name}"] + [f"  | {m.name}" for m in cls] + ["deriving Repr, DecidableEq"]
+            self.out.append("\n".join(lines))
+
     def emit_unions(self):
         for u, classes in self.spec.unions.items():
             ctors = []
@@ -382,7 +392,10 @@ class Tr:
         raise Unsupported(f"no translation of {owner}.{m}")
 
     def translate_all(self):
+        self.emit_enums()
         self.emit_unions()
+        if self.spec.state_decl:
+            self.out.append(self.spec.state_decl)
         for fs in self.spec.fns:
             if fs.qual.startswith("dispatch:"):
                 self.emit_dispatch(fs)
@@ -857,6 +870,8 @@ class Fn:
             return f"(some {paren(term)})"
         if isinstance(want, tuple) and want[0] == "opt" and isinstance(ty, tuple) and ty[0] == "opt":
             return term
+        if isinstance(want, tuple) and want[0] == "opt" and ty == BOOL and want[1] == NAT:
+            return f"(some (b2n {paren(term)}))"
         if ty == ("list", NAT) and want == BYTES:
             raise Unsupported("list of ints used as bytes")
         raise Unsupported(f"{self.fs.qual}: cannot use a value of type {ty} where {want} is expected ({term[:60]})")
@@ -970,7 +985,7 @@ class Fn:
                 L.append(f"let {ident(name)} : List UInt8 := []")
                 return
         term, ty = self.ex(v, env, L, stmt=True)
-        if term not in ("()", ""):
+        if term not in ("()", "") and ty != UNIT:
             L.append(f"let _ := {term}")
 
     def lift(self, e_term):
@@ -1144,7 +1159,18 @@ class Fn:
                 c = self.cond(v, env, sub)
                 if sub:
                     if parts:
-                        raise Unsupported(f"{self.fs.qual}: short-circuit operand that can raise: {ast.unparse(v)[:60]}")
+                        # a later operand that has effects / can raise is evaluated only when the earlier ones let it:
+                        #   a or b  ==>  t <- if a then pure true else (do b)
+                        is_and = isinstance(node.op, ast.And)
+                        sofar = "(" + (" && " if is_and else " || ").join(parts) + ")"
+                        tmp = self.tr.fresh("c")
+                        L.append(f"let {tmp} ← (")
+                        L.append(f"  if {sofar} then (do" if is_and else f"  if !{sofar} then (do")
+                        L.extend("    " + x for x in sub)
+                        L.append(f"    pure {paren(c)}")
+                        L.append(f"  ) else (pure {'false' if is_and else 'true'}))")
+                        parts = [tmp]
+                        continue
                     L.extend(sub)
                 parts.append(paren(c))
             op = " && " if isinstance(node.op, ast.And) else " || "
@@ -1166,6 +1192,8 @@ class Fn:
         if isinstance(node, ast.Subscript):
             return self.subscript(node, env, L)
         if isinstance(node, ast.Call):
+            if isinstance(node.func, ast.Name) and node.func.id in tr.spec.exc_ctor:
+                return tr.spec.exc_ctor[node.func.id](self, node, env, L), EXC
             return self.call(node, env, L, stmt)
         if isinstance(node, ast.Tuple):
             parts = [self.ex(e, env, L) for e in node.elts]
@@ -1250,6 +1278,9 @@ class Fn:
     def attribute(self, node, env, L):
         tr = self.tr
         src = ast.unparse(node)
+        # member of a plain Enum emitted as an inductive
+        if isinstance(node.value, ast.Name) and node.value.id in tr.spec.enums:
+            return f"{node.value.id}.{node.attr}", ("enum", node.value.id)
         # enum member / class attribute by reflection: Reserved.FLAG, t.NcpResetCode.X
         try:
             v = eval(src, vars(tr.mod))  # noqa: S307 - the repository's own module namespace, attribute chains only
@@ -1502,12 +1533,24 @@ class Fn:
                 tmp = tr.fresh("b")
                 L.append(f"let {tmp} ← {self.lift(f'{u}.to_bytes {paren(b)}')}")
                 return tmp, BYTES
+            vm = tr.spec.value_methods.get((self.ty_key(bt), m))
+            if vm is not None:
+                args = [self.ex(a, env, L) for a in node.args]
+                return vm(self, b, bt, args, L)
             if isinstance(bt, tuple) and bt[0] == "dict":
                 if m == "get" and len(node.args) == 1:
                     k, kt = self.ex(node.args[0], env, L)
                     return f"(dictGet {paren(b)} {paren(self.coerce(k, kt, NAT))})", opt(bt[2])
             raise Unsupported(f"{self.fs.qual}: method call {ast.unparse(node)[:70]} on {bt}")
         raise Unsupported(f"{self.fs.qual}: call {ast.unparse(node)[:60]}")
+
+    @staticmethod
+    def ty_key(t):
+        if isinstance(t, tuple) and t[0] == "opt":
+            return "opt:" + Fn.ty_key(t[1])
+        if isinstance(t, tuple):
+            return f"{t[0]}:{t[1]}" if len(t) > 1 and isinstance(t[1], str) else t[0]
+        return t
 
     def find_sig(self, owner, m):
         tr = self.tr
@@ -1601,6 +1644,190 @@ class Fn:
 # --------------------------------------------------------------------------- module specifications
 
 
+ASH_STATE_DECL = """/-- a frame number's ack future (`asyncio.Future`): heap cell -/
+inductive FutState
+  | pending
+  | result                    -- set_result(True)
+  | exc (e : ExcVal)          -- set_exception(e)
+  | cancelled
+deriving Repr, DecidableEq
+
+def FutState.done : FutState → Bool
+  | .pending => false
+  | _ => true
+
+/-- calls the protocol object makes on its environment, in program order -/
+inductive Ev
+  | write (bytes : List UInt8)       -- self._transport.write(data)
+  | transportClose                   -- self._transport.close()
+  | up (payload : List UInt8)        -- self._ezsp_protocol.data_received(payload)
+  | reset (code : Nat)               -- self._ezsp_protocol.reset_received(code)
+  | error (code : Option Nat)        -- self._ezsp_protocol.error_received(code)
+  | connectionLost                   -- self._ezsp_protocol.connection_lost(exc)
+  | ackTimeoutInit                   -- self._change_ack_timeout(T_RX_ACK_INIT)
+deriving Repr, DecidableEq
+
+/-- the fields of `AshProtocol` the translated methods read and write.  Futures live in a heap (`futs`, by
+id) because Python shares them by reference between `_pending_data_frames` and the sending coroutine. -/
+structure AshProtocol where
+  /-- `_transport`: `none` = None, `some c` = a transport whose `is_closing()` answers `c` -/
+  transport : Option Bool := some false
+  buffer : List UInt8 := []
+  discarding : Bool := false
+  /-- `_pending_data_frames`: frame number ↦ future id, insertion ordered -/
+  pending : List (Nat × Nat) := []
+  futs : List FutState := []
+  tx_seq : Nat := 0
+  rx_seq : Nat := 0
+  ncp_reset_code : Option Nat := none
+  ncp_state : NcpState := .CONNECTED
+  trace : List Ev := []
+deriving Repr, DecidableEq
+
+def emit (e : Ev) : PyM AshProtocol Unit := PyM.modify fun s => { s with trace := s.trace ++ [e] }
+
+/-- `fut.done()` -/
+def futDone (id : Nat) : PyM AshProtocol Bool := fun s =>
+  match s.futs[id]? with
+  | some f => (.ok f.done, s)
+  | none => (.error (.unsupported "dangling future"), s)
+
+/-- `fut.done()` on the result of `dict.get` (None has no such attribute) -/
+def optFutDone : Option Nat → PyM AshProtocol Bool
+  | some id => futDone id
+  | none => PyM.throw (.raised "AttributeError")
+
+def futSet (id : Nat) (v : FutState) : PyM AshProtocol Unit := fun s =>
+  match s.futs[id]? with
+  | some .pending => (.ok (), { s with futs := s.futs.set id v })
+  | some _ => (.error (.raised "InvalidStateError"), s)
+  | none => (.error (.unsupported "dangling future"), s)
+
+/-- `self._transport.is_closing()` -/
+def transportIsClosing : PyM AshProtocol Bool := fun s =>
+  match s.transport with
+  | some c => (.ok c, s)
+  | none => (.error (.raised "AttributeError"), s)
+"""
+
+
+def _ash_state_spec():
+    FUT = ("ref", "Fut")
+
+    def call_write(fn, node, env, L):
+        a, at = fn.ex(node.args[0], env, L)
+        if at != BYTES:
+            raise Unsupported("transport.write of " + str(at))
+        L.append(f"emit (.write {paren(a)})")
+        return "()", UNIT
+
+    def call_close(fn, node, env, L):
+        L.append("emit .transportClose")
+        return "()", UNIT
+
+    def call_is_closing(fn, node, env, L):
+        tmp = fn.tr.fresh("c")
+        L.append(f"let {tmp} ← transportIsClosing")
+        return tmp, BOOL
+
+    def up(evname, ty):
+        def h(fn, node, env, L):
+            a, at = fn.ex(node.args[0], env, L)
+            a = fn.coerce(a, at, ty)
+            L.append(f"emit (.{evname} {paren(a)})")
+            return "()", UNIT
+        return h
+
+    def call_conn_lost(fn, node, env, L):
+        L.append("emit .connectionLost")
+        return "()", UNIT
+
+    def call_change_ack_timeout(fn, node, env, L):
+        if len(node.args) == 1 and isinstance(node.args[0], ast.Name) and node.args[0].id == "T_RX_ACK_INIT":
+            L.append("emit .ackTimeoutInit")
+            return "()", UNIT
+        raise Unsupported("_change_ack_timeout with a computed value")
+
+    st = StateSpec(
+        pyclass="AshProtocol", lean="AshProtocol",
+        fields={
+            "_buffer": ("buffer", BYTES),
+            "_discarding_until_next_flag": ("discarding", BOOL),
+            "_pending_data_frames": ("pending", ("dict", NAT, FUT)),
+            "_tx_seq": ("tx_seq", NAT),
+            "_rx_seq": ("rx_seq", NAT),
+            "_ncp_reset_code": ("ncp_reset_code", opt(NAT)),
+            "_ncp_state": ("ncp_state", ("enum", "NcpState")),
+            "_transport": ("transport", opt(BOOL)),
+        },
+        calls={
+            "self._transport.write": call_write,
+            "self._transport.close": call_close,
+            "self._transport.is_closing": call_is_closing,
+            "self._ezsp_protocol.data_received": up("up", BYTES),
+            "self._ezsp_protocol.reset_received": up("reset", NAT),
+            "self._ezsp_protocol.error_received": up("error", opt(NAT)),
+            "self._ezsp_protocol.connection_lost": call_conn_lost,
+            "self._change_ack_timeout": call_change_ack_timeout,
+        },
+    )
+    return st
+
+
+def _ash_exc():
+    def simple(term):
+        def h(fn, node, env, L):
+            return term
+        return h
+
+    def ncp_failure(fn, node, env, L):
+        kws = {k.arg: k.value for k in node.keywords}
+        arg = kws.get("code") or (node.args[0] if node.args else None)
+        if arg is None:
+            return "(ExcVal.ncpFailure none)"
+        if isinstance(arg, ast.Constant) and isinstance(arg.value, str):
+            return "(ExcVal.ncpFailure none)"
+        a, at = fn.ex(arg, env, L)
+        if at == NAT:
+            return f"(ExcVal.ncpFailure (some {paren(a)}))"
+        if at == opt(NAT):
+            return f"(ExcVal.ncpFailure {paren(a)})"
+        raise Unsupported(f"NcpFailure({at})")
+
+    return {"RuntimeError": simple("ExcVal.runtimeError"), "NotAcked": simple("ExcVal.notAcked"), "NcpFailure": ncp_failure}
+
+
+def _ash_value_methods():
+    def fut_done(fn, b, bt, args, L):
+        tmp = fn.tr.fresh("d")
+        L.append(f"let {tmp} ← futDone {paren(b)}")
+        return tmp, BOOL
+
+    def optfut_done(fn, b, bt, args, L):
+        tmp = fn.tr.fresh("d")
+        L.append(f"let {tmp} ← optFutDone {paren(b)}")
+        return tmp, BOOL
+
+    def fut_set_result(fn, b, bt, args, L):
+        if len(args) != 1 or args[0][0] != "true":
+            raise Unsupported("set_result of something other than True")
+        L.append(f"futSet {paren(b)} .result")
+        return "()", UNIT
+
+    def fut_set_exception(fn, b, bt, args, L):
+        if len(args) != 1 or args[0][1] != EXC:
+            raise Unsupported("set_exception of a non-exception")
+        L.append(f"futSet {paren(b)} (.exc {paren(args[0][0])})")
+        return "()", UNIT
+
+    return {
+        ("ref:Fut", "done"): fut_done,
+        ("opt:ref:Fut", "done"): optfut_done,
+        ("ref:Fut", "set_result"): fut_set_result,
+        ("ref:Fut", "set_exception"): fut_set_exception,
+    }
+
+
 def ash_spec() -> ModSpec:
     frames = ["DataFrame", "AckFrame", "NakFrame", "RstFrame", "RStackFrame", "ErrorFrame"]
     fns = [
@@ -1612,12 +1839,27 @@ def ash_spec() -> ModSpec:
     for c in frames:
         fns.append(FnSpec(f"{c}.from_bytes", bind_cls=c, ret=("obj", "Frame")))
         fns.append(FnSpec(f"{c}.to_bytes", bind_cls=c, ret=BYTES))
+    F = ("obj", "Frame")
     fns += [
         FnSpec("dispatch:Frame:from_bytes"),
         FnSpec("dispatch:Frame:to_bytes"),
-        FnSpec("parse_frame", ret=("obj", "Frame")),
+        FnSpec("parse_frame", ret=F),
         FnSpec("AshProtocol._stuff_bytes", lean_name="stuff_bytes"),
         FnSpec("AshProtocol._unstuff_bytes", lean_name="unstuff_bytes"),
+        # ---- the receiver: synchronous methods of AshProtocol over the state structure
+        FnSpec("AshProtocol._cancel_pending_data_frames", params={"exc": EXC}, ret=UNIT),
+        FnSpec("AshProtocol._write_frame", params={"frame": F, "prefix": ("list", NAT), "suffix": ("list", NAT)}, ret=UNIT),
+        FnSpec("AshProtocol._handle_ack", params={"frame": F}, ret=UNIT),
+        FnSpec("AshProtocol.data_frame_received", params={"frame": F}, ret=UNIT),
+        FnSpec("AshProtocol.rstack_frame_received", params={"frame": F}, ret=UNIT),
+        FnSpec("AshProtocol.ack_frame_received", params={"frame": F}, ret=UNIT),
+        FnSpec("AshProtocol.nak_frame_received", params={"frame": F}, ret=UNIT),
+        FnSpec("AshProtocol.rst_frame_received", params={"frame": F}, ret=UNIT),
+        FnSpec("AshProtocol._enter_failed_state", params={"reset_code": opt(NAT)}, ret=UNIT),
+        FnSpec("AshProtocol.error_frame_received", params={"frame": F}, ret=UNIT),
+        FnSpec("AshProtocol.frame_received", params={"frame": F}, ret=UNIT),
+        FnSpec("AshProtocol.send_reset", ret=UNIT),
+        FnSpec("AshProtocol.close", ret=UNIT),
     ]
     return ModSpec(
         module="bellows.ash",
@@ -1626,6 +1868,11 @@ def ash_spec() -> ModSpec:
         opens=["BV.Py"],
         unions={"Frame": frames},
         fns=fns,
+        state=_ash_state_spec(),
+        exc_ctor=_ash_exc(),
+        value_methods=_ash_value_methods(),
+        enums=["NcpState"],
+        state_decl=ASH_STATE_DECL,
     )
 
 
